@@ -24,7 +24,7 @@ from engine.cfg import build_cfg
 from engine.dataflow import ReachingDefs
 from engine import norm
 import re
-from .sem import expander, ctext, want, xt, bind, calls, paths, block_paths, split_ifexp, inline_helpers, defs_texts, guarded_values, self_attr_value_texts, RAISE, BREAK, CONTINUE
+from .sem import truth_of, expander, ctext, want, xt, bind, calls, paths, block_paths, split_ifexp, inline_helpers, defs_texts, guarded_values, self_attr_value_texts, RAISE, BREAK, CONTINUE
 
 RULES = {
     "C13.a": "available_fcts: inverse names are keys, the table is an involution, names match functions, paired functions are mathematical inverses (function classes log/exp/log1p/expm1)",
@@ -306,6 +306,14 @@ def check_b(ck, repo):
         ck.violated("C13.b", ptr, "for i in range(len(yp)): yp[i] = permutation_[..]", "label branch: no element-wise mapping of the targets found")
     else:
         l, Y = lab
+        # which targets take the label branch: every integer width labels can have (a 2-D block of
+        # int32 labels must not be taken for a block of scores)
+        sel = [p_ for p_ in _parents_of(l) if isinstance(p_, ast.If) and any(l is z or any(l is w for w in ast.walk(z)) for z in p_.body)]
+        for if_ in sel[:1]:
+            for cmp_ in [c_ for c_ in ast.walk(if_.test) if isinstance(c_, ast.Compare) and len(c_.ops) == 1 and isinstance(c_.ops[0], ast.In) and _t(c_.left).endswith(".dtype") and isinstance(c_.comparators[0], (ast.Tuple, ast.List, ast.Set))]:
+                listed = {_t(e_).split(".")[-1] for e_ in c_container(cmp_)}
+                widths = {"int32", "int64"} - listed - ({"int64"} if {"int_", "intp", "longlong"} & listed else set())
+                ck.verdict(not widths, "C13.b", ptr, cmp_, f"integer labels of every usual width take the label branch ({sorted(listed)})", f"the dtype test lists {sorted(listed)}: labels of dtype {sorted(widths)} (what numpy gives for integer labels on some platforms and what callers pass explicitly) with two dimensions are taken for a matrix of scores: columns are moved instead of values being mapped, or transform raises")
         iv = l.target.id
         ydef = [xt(x_) for _, x_, _ in guarded_values(repo, ptr, ast.Name(id=Y, ctx=ast.Load()), l)]
         okcopy = bool(ydef) and all(t in (f"{y}.copy().ravel()", f"{y}.ravel().copy()", f"numpy.array({y}).ravel()", f"{y}.flatten()") for t in ydef)
@@ -569,6 +577,17 @@ def check_d(ck, repo):
     ck.verdict(bool(got) and len(ordered) == len(got) and ascending, "C13.d", cl, f"classes_ = {[g_[:70] for g_ in got]}", "the probability branch moves column i to the rank of its original label: classes_ lists the original labels in increasing order, like the columns", f"the probability/decision columns are re-ordered by the rank of their original label (`{src_of(x)}`), but classes_ returns {[g_[:90] for g_ in got]} - the original labels in the order of the INNER classifier's classes: classes_[j] is not the label of probability column j whenever the permutation is not the identity")
 
 
+def _parents_of(n):
+    p = getattr(n, "_parent", None)
+    while p is not None:
+        yield p
+        p = getattr(p, "_parent", None)
+
+
+def c_container(cmp_):
+    return cmp_.comparators[0].elts
+
+
 def check_c(ck, repo):
     ex = expander(repo)
     for cname, inner, is_reg in (("TransformedTargetRegressor2", "regressor_", "True"), ("TransformedTargetClassifier2", "classifier_", "False")):
@@ -587,7 +606,8 @@ def check_c(ck, repo):
             ok_o = ok_o and len(tf) == 1 and cs[tf[0]] == f"self.transformer_.fit({X}, {y}, sample_weight={sw})" and bool(tt) and tf[0] < tt[0]
             fits = [c for c in p.calls if _t(c.func) == f"self.{inner}.fit"]
             ok_f = ok_f and len(fits) == 1 and [_t(a) for a in fits[0].args[:2]] == [XT, YT]
-            given = (f"{sw} is None", False) in p.conds
+            # weights may be present on every path that does not establish `sample_weight is None`
+            given = (f"{sw} is None", False) in p.conds or truth_of(p.conds, f"{sw} is None") is not True
             kw = {k.arg: _t(k.value) for k in fits[0].keywords} if fits else {}
             pos_sw = _t(fits[0].args[2]) if fits and len(fits[0].args) > 2 else None
             ok_w = ok_w and ((kw.get("sample_weight") == sw or pos_sw == sw) if given else (kw.get("sample_weight") in (None, sw) and pos_sw in (None, sw)))
